@@ -216,3 +216,65 @@ Proof.
   apply (H x). change (In x (w :: rest)). rewrite <- E.
   eapply Permutation_in; [apply Permutation_sym, sig_sort_perm|exact Hx].
 Qed.
+
+(* ------------------------------------------------------------------------------------------ *)
+(* the sorted slice does not depend on the order in which the map iteration (or the sorting
+   algorithm) presented the group, when the uids are distinct: two sorted permutations of a list
+   with distinct uids are equal *)
+
+Fixpoint ssorted (l : list (string * UserSigEx)) : Prop :=
+  match l with
+  | [] => True
+  | h :: r => (forall x, In x r -> sig_le h x = true) /\ ssorted r
+  end.
+
+Lemma sig_le_trans a b c : sig_le a b = true -> sig_le b c = true -> sig_le a c = true.
+Proof. unfold sig_le, sig_less. apply obj_le_trans. Qed.
+
+Lemma sig_ins_ssorted x l : ssorted l -> ssorted (sig_ins x l).
+Proof.
+  induction l as [|y r IH]; cbn; [intros _; split; [intros ? []|exact I]|].
+  intros [Hy Hr]. destruct (sig_less x y) eqn:E; cbn.
+  - split; [|split; assumption]. intros z [<-|Hz].
+    + unfold sig_le, sig_less in *. apply obj_less_le. exact E.
+    + apply (sig_le_trans _ y); [unfold sig_le, sig_less in *; apply obj_less_le; exact E|apply Hy; exact Hz].
+  - split; [|apply IH; exact Hr]. intros z Hz.
+    assert (Hz' : In z (x :: r)) by (eapply Permutation_in; [apply sig_ins_perm|exact Hz]).
+    destruct Hz' as [<-|Hz']; [unfold sig_le; rewrite E; reflexivity|apply Hy; exact Hz'].
+Qed.
+
+Lemma sig_sort_ssorted l : ssorted (sig_sort l).
+Proof. induction l as [|x r IH]; cbn; [exact I|]. apply sig_ins_ssorted. exact IH. Qed.
+
+Definition uid_of (ke : string * UserSigEx) : string := so_uid (s_obj (snd ke)).
+
+Lemma ssorted_perm_unique l : forall l',
+  NoDup (map uid_of l) -> ssorted l -> ssorted l' -> Permutation l l' -> l = l'.
+Proof.
+  induction l as [|h r IH]; intros l' N S1 S2 P.
+  - apply Permutation_nil in P. subst. reflexivity.
+  - destruct l' as [|h' r']; [apply Permutation_sym, Permutation_nil in P; discriminate|].
+    cbn in S1, S2. destruct S1 as [H1 S1]. destruct S2 as [H2 S2].
+    assert (Eh : h = h').
+    { assert (In1 : In h (h' :: r')) by (eapply Permutation_in; [exact P|left; reflexivity]).
+      assert (In2 : In h' (h :: r)) by (eapply Permutation_in; [apply Permutation_sym; exact P|left; reflexivity]).
+      destruct In1 as [E|In1]; [auto|]. destruct In2 as [E|In2]; [auto|].
+      pose proof (H2 _ In1) as L1. pose proof (H1 _ In2) as L2.
+      assert (Hu : uid_of h <> uid_of h').
+      { cbn in N. inversion N as [|? ? Hn _]. intros E. apply Hn. rewrite E. apply in_map. exact In2. }
+      unfold sig_le, sig_less in L1, L2.
+      destruct (obj_less_total (s_obj (snd h)) (s_obj (snd h')) Hu) as [T|T]; rewrite T in *; discriminate. }
+    subst h'. f_equal. apply IH; auto.
+    + cbn in N. inversion N; assumption.
+    + eapply Permutation_cons_inv. exact P.
+Qed.
+
+Theorem sig_sort_perm_invariant l l' :
+  NoDup (map uid_of l) -> Permutation l l' -> sig_sort l = sig_sort l'.
+Proof.
+  intros N P. apply ssorted_perm_unique.
+  - eapply Permutation_NoDup; [apply Permutation_map, Permutation_sym, sig_sort_perm|exact N].
+  - apply sig_sort_ssorted.
+  - apply sig_sort_ssorted.
+  - eapply perm_trans; [apply sig_sort_perm|]. eapply perm_trans; [exact P|apply Permutation_sym, sig_sort_perm].
+Qed.
